@@ -19,9 +19,21 @@ LEVEL_TEXT = ("Theorems (Coq, over the reals, every dimension n >= 1): for a non
               "the same three clauses hold under the weaker, exactly stated pass-by-pass hypothesis qr_pivots_ok (no pass divides by zero); the overwriting R[j][i] = 0.0 changes nothing over the reals. "
               "All sweeps of Eigenvalues: whatever the model returns for a non-singular square M is the diagonal of a matrix A = Q^T M Q with Q orthogonal that passed the code's convergence test, "
               "there are n values, their sum is trace(M) exactly, every iterate is non-singular, and A is symmetric when M is; one sweep is the similarity R Q = Q^T A Q (trace and symmetry kept). "
-              "Non-vacuity: concrete non-singular 2 x 2 matrices (one symmetric), and Eigenvalues returns [a] on the 1 x 1 matrix (a), a <> 0. "
+              "Convergence, on the diagonal matrices of the quantifier (C15_Proofs_Diag.v): for every n >= 1 and every diagonal M with non-zero diagonal the model of Eigenvalues returns "
+              "(does not exit after 200 sweeps) exactly the diagonal of M in its order (C15_eigenvalues_of_diagonal, _of_diagonal_list; each sweep's Q is a diagonal matrix of signs because it is orthogonal and "
+              "R = Q^T M is upper triangular, so R Q = M as a list of rows: C15_qr_sweep_fixes_diagonal); S4 checks the library's answer on exactly diagonal inputs for equality (eigenvalues:diagonal-order). "
+              "Matrix::Inverse as called by Find_Eigenvector_Rayleigh (C15_Proofs_Inv.v, induction over the Gauss-Jordan steps with partial pivoting, every n): whatever the model returns for A is an n x n B with B A = 1 "
+              "and trivial kernel (C15_inverse_is_left_inverse), symmetric and also a right inverse when A is symmetric (C15_inverse_of_symmetric). Hence, with hypotheses on M only: "
+              "every vector Find_Eigenvector_Rayleigh returns is a unit vector of the dimension of M, whichever value is passed as eigenvalue (C15_rayleigh_returns_unit_vector; the older C15_inverse_iteration_unit "
+              "carries a hypothesis over vectors of every length that no matrix meets and is superseded); when Inverse returns, the shift is no eigenvalue of M and the inverse scales each eigenvector of M by 1 / (lambda - shift) "
+              "(C15_inverse_scales_eigenvectors); if the start vector (1, 1/2, .., 1/n) is an eigenvector of M the call returns it with its own eigenvalue whichever eigenvalue was asked for "
+              "(C15_rayleigh_start_vector_eigenvector), and for symmetric M the returned vector is orthogonal to every eigenvector the start vector is orthogonal to (C15_rayleigh_keeps_orthogonality): "
+              "over the reals the clause 'for each eigenvalue a vector with M v = lambda v' is false of the model on such inputs (C15_rayleigh_each_eigenvalue_refuted, witness [[16,-2],[-2,19]] asked for 20, answered (15, (2,1)/sqrt 5)); "
+              "the library answers that witness correctly through rounding noise (replayed) and fails on [[-1,-2],[-2,2]] (known finding K-C15-5). "
+              "Non-vacuity: concrete non-singular 2 x 2 matrices (one symmetric), Eigenvalues returns [a] on the 1 x 1 matrix (a), a <> 0, diag(3, -2, 1/2), and Inverse / Find_Eigenvector_Rayleigh return on [[16,-2],[-2,19]] - (20 + 25e-8) 1. "
               "For x = 0 the code divides by zero (refuted-by-example in the float run: NaN). "
-              "Not theorems: convergence of the unshifted QR iteration (that Eigenvalues returns instead of exiting after 200 sweeps, for n >= 2), that the returned diagonal is close to the eigenvalues "
+              "Not theorems: convergence of the unshifted QR iteration on non-diagonal matrices (that Eigenvalues returns instead of exiting after 200 sweeps), that Inverse returns (its determinant guard and zero-pivot exit are only tested), "
+              "that the inverse iteration converges to an eigenvector (M v = lambda v is only tested), that the returned diagonal is close to the eigenvalues "
               "(only: diagonal of an orthogonally similar matrix whose sub-diagonal mass is below 1e-12 of the diagonal mass), the clause 'multiplies to the determinant' "
               "(no theorem relates the model's Determinant to the product), termination and accuracy of the inverse iteration, everything about rounding "
               "(in floating point Q^T Q = 1 and Q R = M hold only to rounding, and the zeros below the diagonal of R exist because the code writes them). "
@@ -814,6 +826,21 @@ def generate(rng, tier):
         cs.append(Case(_mline("det", m), ["det"] + tags, tol=T0)); cs.append(Case(_mline("inverse", m), ["inverse"] + tags, tol=(1e-9, 0.0)))
     cs.append(Case(_mline("inverse", [[1.0, 2.0], [2.0, 4.0]]), ["inverse", "singular"]))
     cs.append(Case(_mline("inverse", [[0.0, 1.0], [1.0, 0.0]]), ["inverse", "pivot"]))
+    # ---- Find_Eigenvector_Rayleigh itself, with ANY value passed as the eigenvalue (theorems C15_rayleigh_returns_unit_vector,
+    #      C15_rayleigh_quotient_returned hold whichever value is passed): an eigenvalue, an eigenvalue moved by 1e-12 .. 1e-3 of |M|,
+    #      a midpoint of two eigenvalues, a value outside the spectrum; moderate overall scale only
+    for k in range(800 if big else 80):
+        n = rng.randint(1, 7) if k % 4 else rng.randint(1, 3)
+        m, lam, tag = _gen_sym(rng, n)
+        srt = sorted(lam); nmf = _fro(m); mode = k % 4
+        if mode == 0: ev = rng.choice(lam); mt = "at-eigenvalue"
+        elif mode == 1: ev = rng.choice(lam) + rng.choice((-1.0, 1.0)) * nmf * 10 ** rng.uniform(-12, -3); mt = "near-eigenvalue"
+        elif mode == 2 and n >= 2: j = rng.randrange(n - 1); ev = 0.5 * (srt[j] + srt[j + 1]); mt = "midpoint"
+        else: ev = rng.choice((-1.0, 1.0)) * nmf * rng.uniform(1.0, 3.0); mt = "outside"
+        cs.append(Case(_mline("rayleigh", m, " " + hx(ev)), ["rayleigh", mt, tag, f"n={n}"], tol=(1e-7, 1e-300), info={"lam": lam}))
+    for d in ([3.0, -2.0, 0.5], [1.0], [-4.0, 1.0], [2.0, 3.0, 5.0, -7.0], [1e-3, 1e3], [0.8 ** j * (-1) ** j for j in range(7)]):
+        # theorem C15_eigenvalues_of_diagonal: Eigenvalues(diag(d)) = d, in the order of the diagonal
+        cs.append(Case(_mline("eigenvalues", [[d[i] if i == j else 0.0 for j in range(len(d))] for i in range(len(d))]), ["eigenvalues", "diagonal", "diagonal-exact", f"n={len(d)}"], tol=(1e-9, 0.0), info={"lam": list(d)}))
     # ---- Eigenvalues / Eigensystem / Eigenvectors on symmetric Q diag(lambda) Q^T
     for k in range(3000 if big else 300):
         n = rng.randint(1, 7) if k % 4 else rng.randint(1, 3)
@@ -938,6 +965,7 @@ def nontrivial(c, io):
     if op == "qr":
         return c.info.get("kappa", 1.0) > 1e3 or any(m[i][0] == 0.0 for i in range(n)) or "guard" in " ".join(c.tags) or abs(e) > 12 or _near_reduced(m)
     if op == "session": return True
+    if op == "rayleigh": return n >= 2
     if op in ("eigenvalues", "eigensystem", "eigenvectors", "history"):
         lam = c.info.get("lam")
         if not lam: return True
@@ -1094,6 +1122,12 @@ def predicates(c, io):
         if op == "eigenvalues":
             ev, _ = _read_list(o, 0)
             out += _pred_eigenvalues(m, ev, ref, e, reg)
+            # theorem C15_eigenvalues_of_diagonal: on a diagonal matrix with non-zero diagonal every sweep returns the matrix itself (Q is a diagonal
+            # matrix of signs), so the answer is the diagonal in its own order; in floating point each step is exact while the squares d * d stay
+            # inside the normal range (sqrt(fl(d * d)) = |d|), hence equality and not "to rounding"
+            dg = [m[i][i] for i in range(n)]
+            if not out and all(m[i][j] == 0.0 for i in range(n) for j in range(n) if i != j) and all(1e-100 < abs(x) < 1e100 for x in dg) and list(ev) != dg:
+                out.append(("eigenvalues:diagonal-order" + reg, f"Eigenvalues of the diagonal matrix diag{dg!r} = {list(ev)!r}, not the diagonal in its order"))
         elif op == "eigensystem":
             ev, k = _read_list(o, 0); vs, _ = _read_vecs(o, k)
             out += _pred_eigenpairs(m, ev, vs, ref, e, reg_sys, "Eigensystem")
@@ -1142,6 +1176,18 @@ def predicates(c, io):
             else:
                 vs, k = _read_vecs(o, k); out += _pred_eigenpairs(cur, None, vs, cx["ref"], cx["e"], cx["reg_sys"], what)
         if o[k] != 1: out.append(("history:argument-unchanged", "a Matrix passed by reference differs from the value its caller gave it after the calls of the session"))
+    elif op == "rayleigh":
+        # Find_Eigenvector_Rayleigh(M, ev) for any ev: (theorem C15_rayleigh_returns_unit_vector) a unit vector of the dimension of M,
+        # (theorem C15_rayleigh_quotient_returned) the returned eigenvalue is the Rayleigh quotient of the returned vector
+        if timeout: return [("rayleigh:timeout", "Find_Eigenvector_Rayleigh did not terminate within the time bound")]
+        if exited: return [("rayleigh:exit", "Find_Eigenvector_Rayleigh terminated the process on a symmetric matrix of moderate scale")]
+        lamr = o[0]; v, _ = _read_list(o, 1); nm = _fro(m)
+        if len(v) != n: return [("rayleigh:count", f"vector of length {len(v)} for a {n} x {n} matrix")]
+        if _isnan(lamr) or math.isinf(lamr) or any(_isnan(x) or math.isinf(x) for x in v): return [("rayleigh:nan", "NaN in the returned pair")]
+        nv_ = math.sqrt(math.fsum(x * x for x in v))
+        if not abs(nv_ - 1.0) <= 8 * n * EPS: out.append(("rayleigh:unit", f"returned vector has norm {nv_!r}"))
+        rq = math.fsum(v[i] * math.fsum(m[i][j] * v[j] for j in range(n)) for i in range(n))
+        if not abs(lamr - rq) <= 8 * n * n * EPS * nm: out.append(("rayleigh:quotient", f"returned eigenvalue {lamr!r} is not the Rayleigh quotient {rq!r} of the returned vector"))
     elif op in ("det", "inverse") and timeout:
         out.append((f"{op}:timeout", f"{op} did not terminate within the time bound"))
     elif op == "det":
